@@ -662,6 +662,22 @@ def semantics_origin_menu_cross():
     return out
 
 
+def core_cross():
+    """THOROUGH: the complete cross product of eight core dimensions with reduced value sets - every interaction of any
+    number of them: origin x provides semantics x requires semantics x multi-client x component/system x namespace depth
+    x injected port x support prefix."""
+    out = []
+    for fac, psem, rsem, mc, kind, ns, ninj, prefix in itertools.product(
+            DIMS['fac'], DIMS['psem'], ('allmts', 'allsts', 'firstmts'), ('none', 'p0:1'), DIMS['kind'], ('', 'N', 'N.M'),
+            (0, 1), ('', 'Other.Project')):
+        pt = dict(BASE_POINT)
+        pt.update({'fac': fac, 'psem': psem, 'rsem': rsem, 'mc': mc, 'kind': kind, 'ns': ns, 'ninj': ninj, 'prefix': prefix,
+                   'nreq': 2})
+        if valid_point(pt):
+            out.append(pt)
+    return out
+
+
 def lab_points(k):
     """Point set shared by all lab properties: deviations from the base point and from the
     multi-client base point, plus the semantics x origin cross product."""
@@ -687,7 +703,7 @@ def lab_points(k):
             pt.update(delta)
             if valid_point(pt):
                 corners.append(pt)
-    for pt in semantics_origin_cross() + semantics_origin_menu_cross() + corners:
+    for pt in semantics_origin_cross() + semantics_origin_menu_cross() + corners + (core_cross() if k >= 2 else []):
         key = point_id(pt)
         if key not in seen:
             seen.add(key)
